@@ -17,7 +17,8 @@ META = {
              "aggregates, xcube with those and stddev/quantile/min/max/corrcoef/covariance; NaN report format. "
              "Non-trivial: >=2 extra-axis positions in total and pairwise different extra extents; distinct by content hash"),
     "require": {t: ["class:axes=3", "class:multi_dims>=2", "cube:ccube", "cube:xcube", "agg:covariance", "agg:count",
-                    "agg:quantile", "blocks_compared", "sliced_variant_compared", "class:dims_with_equal_extra_shape"] for t in ("quick", "thorough")},
+                    "agg:quantile", "blocks_compared", "sliced_variant_compared", "class:dims_with_equal_extra_shape",
+                    "class:xcube_layout=F", "class:xcube_layout=strided", "class:entry_removed_in_place_then_recomputed"] for t in ("quick", "thorough")},
     "assumptions": ["blocks are compared with the 1-D cube of the same library (the property relates the two); "
                     "values within 1e-9 of the data magnitude, missing cells exactly"],
 }
@@ -84,7 +85,11 @@ def judge(ctx, case):
         if kind == "ccube":
             cube = catii.ccube(dims, interacting_shape=shape)
         else:
-            cube = catii.xcube([a.copy() for a in dense], interacting_shape=shape)
+            lrng = numpy.random.default_rng(case["n"] * 7919 + len(case["aggs"] if "aggs" in case else agg))
+            variants_ = [gen.layout_variant(lrng, a) for a in dense]
+            for _, lab in variants_:
+                ctx.count("class:xcube_layout=" + lab)
+            cube = catii.xcube([v for v, _ in variants_], interacting_shape=shape)
         res = numpy.asarray(aggr.call_any(cube, agg, case, rma))
         ctx.evaluation({"d": dense, "c": case["commons"], "a": agg, "k": kind, "f": case["fact"], "w": case["weights"],
                         "i": case["ignore_missing"], "p": case.get("p")}, nt)
@@ -124,6 +129,34 @@ def judge(ctx, case):
                                   "block at extra-axis positions %r differs from the cube over the 1-D slices (%s): block %r sub-cube %r"
                                   % (spos, vname, block.ravel()[:6].tolist(), want.ravel()[:6].tolist()), case)
                     return
+    # index dimensions are live objects: empty one entry of a multi-axis dimension in place (entry-wise
+    # difference) and compute the cube again over the same index objects
+    if agg in aggr.SHARED and case["n"] and any(d.ndim > 1 and len(x) for d, x in zip(dense, dims)):
+        r2 = numpy.random.default_rng(case["n"] + 31 * len(dense))
+        cand = [i for i, (d, x) in enumerate(zip(dense, dims)) if d.ndim > 1 and len(x)]
+        di = cand[int(r2.integers(0, len(cand)))]
+        keys = list(dict.keys(dims[di]))
+        key = keys[int(r2.integers(0, len(keys)))]
+        rows = dict.__getitem__(dims[di], key).copy()
+        dims[di].difference_update({key: rows})
+        d2 = dense[di].copy()
+        d2[(rows.astype(numpy.intp),) + tuple(key[1:])] = case["commons"][di]
+        dense2 = list(dense)
+        dense2[di] = d2
+        ctx.count("class:entry_removed_in_place_then_recomputed")
+        res = numpy.asarray(aggr.call_any(catii.ccube(dims, interacting_shape=shape), agg, case, rma))
+        for pos in positions:
+            spos = tuple(i for p in pos for i in p)
+            cols = oracles.columns_at(dense2, pos)
+            sub = catii.ccube([gen.dense_to_index(c, cm) for c, cm in zip(cols, case["commons"])], interacting_shape=shape)
+            want = numpy.asarray(aggr.call_any(sub, agg, case, rma))
+            block = res[spos]
+            mb, mw = numpy.isnan(block.astype(float)), numpy.isnan(want.astype(float))
+            if not (numpy.array_equal(mb, mw) and bool(numpy.all(numpy.abs(block.astype(float)[~mb] - want.astype(float)[~mb]) <= tol))):
+                ctx.violation("block-differs-after-in-place-edit:ccube:%s" % agg,
+                              "after difference_update emptied entry %r of dimension %d, the block at %r does not equal the cube over the "
+                              "1-D slices of the edited data" % (key, di, spos), case)
+                return
     if ctx.evals % 97 == 1:
         ctx.sample({"dense_shapes": [list(d.shape) for d in dense], "commons": case["commons"], "agg": agg,
                     "result_shape": list(exp_shape)})
